@@ -451,11 +451,11 @@ fn main() {
     if t.lines.len() == 12 {
       println!("  escapes line as emitted by the wasm backend: {:?}", t.lines[8]);
       println!("  non-ascii line as decoded like loader.js:    {:?}", t.lines[9]);
-      // loader.js: bytes >= 0x80 come out of array.get_s negative and become 0xFF00|b code units
+      // loader.js: the bytes are decoded as UTF-8 (TextDecoder)
       let l = &t.lines[9];
       ctx.check(
-        "strings: non-ascii bytes decode to U+FFxx (String.fromCharCode of sign-extended bytes)",
-        l.starts_with('h') && l.ends_with("llo") && l.chars().all(|c| (c as u32) < 0x80 || (c as u32) >= 0xFF80),
+        "strings: non-ascii bytes decode as UTF-8 (TextDecoder over the low 8 bits of __strGet)",
+        l == "héllo",
         || format!("{l:?}"),
       );
       ctx.check("strings: equality", t.lines[10] == "eq" && t.lines[11] == "ne", || {
